@@ -102,6 +102,61 @@ def run(w: World, rep: Report):
 
     # ---- loops ----------------------------------------------------------------
     outer = [n for n in cfg.nodes if n.kind == 'for' and isinstance(n.ast.iter, ast.Name) and n.ast.iter.id == sigs_var]
+    if len(outer) > 1:
+        # the matching loop is the one that runs the inner check; any other pass over the signatures is examined for
+        # what it refuses: a guard on a signature's flag byte may refuse only flags the operand does not permit
+        _cs = w.handler_for('OP_CHECK_SIG')
+        main = [n for n in outer if any(isinstance(x, ast.Call) and isinstance(x.func, ast.Name) and x.func.id == _cs.name
+                                        for x in ast.walk(n.ast))]
+        extra = [n for n in outer if n not in main]
+        from .feval import feval, Unknown, free_names
+        import copy as _copy
+        for lp in extra:
+            el = lp.ast.target.id if isinstance(lp.ast.target, ast.Name) else None
+            for g in [x for x in ast.walk(lp.ast) if isinstance(x, ast.Call) and cfg.exc.guard_class('functions', x) and x.args]:
+                cond = _copy.deepcopy(g.args[0])
+
+                class V(ast.NodeTransformer):
+                    def visit_Subscript(self, n):
+                        if isinstance(n.value, ast.Name) and n.value.id == el and ast.unparse(n.slice) in ('-1', '64'):
+                            return ast.Name(id='flag__', ctx=ast.Load())
+                        return self.generic_visit(n)
+                cond = V().visit(cond)
+                if 'flag__' not in free_names(cond):
+                    continue
+                # whatever else the condition mentions (a name, `subtape.data[0]`, ..) is the one other quantity
+                texts = set()
+
+                class O(ast.NodeTransformer):
+                    def generic_visit(self, n):
+                        if isinstance(n, (ast.Name, ast.Attribute, ast.Subscript, ast.Call)) and \
+                                not any(isinstance(y, ast.Name) and y.id == 'flag__' for y in ast.walk(n)) and \
+                                not (isinstance(n, ast.Name) and n.id in ('bool', 'int', 'len')):
+                            texts.add(ast.unparse(n))
+                            return ast.Name(id='allow__', ctx=ast.Load())
+                        return super().generic_visit(n)
+                cond = O().visit(cond)
+                if len(texts) != 1:
+                    continue
+                av = 'allow__'
+                cex = None
+                try:
+                    for a_ in [0, 0xFF] + [1 << b for b in range(8)] + [0x7B, 0x55]:
+                        for v_ in range(256):
+                            if (v_ & ~a_ & 0xFF) == 0 and not feval(cond, {'flag__': v_, av: a_}):
+                                cex = (v_, a_)
+                                break
+                        if cex:
+                            break
+                except Unknown:
+                    continue
+                if cex:
+                    rep.check('C03.R2', f'functions.{fi.name}|extra-pass-refuses-only-unpermitted-flags', False,
+                              line=g.lineno, file=REL,
+                              why=f'`{ast.unparse(g.args[0])[:50]}` refuses a signature whose flag byte {cex[0]:#04x} is permitted by '
+                              f'the allowed-flags operand {cex[1]:#04x}: m valid signatures by m listed keys raise instead of '
+                              f'yielding true')
+        outer = main
     if len(outer) != 1:
         raise AnalysisError('OP_CHECK_MULTISIG: loop over the signatures not found')
     # the inner loop is the one (nested in the signature loop) that contains the inner check; the
